@@ -75,21 +75,23 @@ inductive Err | index | zerodiv | type
   deriving DecidableEq, Repr
 
 /-- ensemble.py l.74-78 `for i in range(self.nDim)`: `upper[i]`, `lower[i]`, `nbins[i]` (IndexError when one of the
-lists is too short, ZeroDivisionError for a Python-int bin count of `0`) -/
-def latticeBins (lower upper : List R) (nbins : List Nat) : Nat → Nat → Except Err (List (List R))
+lists is too short).  A bin count of `0`: with the default ranges (`pyfloat = true`: `_defaultMin/_defaultMax` hold Python
+floats) `abs(..)/0` raises ZeroDivisionError; with strict ranges (`pyfloat = false`: `_strictMin/_strictMax` are numpy
+arrays) the division gives `inf`/`nan` silently and `range(0)` makes an EMPTY bin. -/
+def latticeBins (pyfloat : Bool) (lower upper : List R) (nbins : List Nat) : Nat → Nat → Except Err (List (List R))
   | 0, _ => .ok []
   | d + 1, i =>
     match upper[i]?, lower[i]?, nbins[i]? with
     | some hi, some lo, some n =>
-      if n = 0 then .error .zerodiv
-      else match latticeBins lower upper nbins d (i + 1) with
+      if n = 0 ∧ pyfloat = true then .error .zerodiv
+      else match latticeBins pyfloat lower upper nbins d (i + 1) with
         | .ok rest => .ok (latticeBin lo hi n :: rest)
         | .error e => .error e
     | _, _, _ => .error .index
 
 /-- `LatticeSolver._InitialPoints` for a tuple `nbins` and `dist=None` (l.73-82) -/
-def latticePoints (dim : Nat) (lower upper : List R) (nbins : List Nat) : Except Err (List (List R)) :=
-  match latticeBins lower upper nbins dim 0 with
+def latticePoints (pyfloat : Bool) (dim : Nat) (lower upper : List R) (nbins : List Nat) : Except Err (List (List R)) :=
+  match latticeBins pyfloat lower upper nbins dim 0 with
   | .error e => .error e
   | .ok bins =>
     match gridpts bins with
